@@ -26,7 +26,8 @@ def scenarios(r, upper):
         md = {"s1.t1": [U(c) for c in cols], "zz.other": ["q"]}
         exp = sorted("s1.t1.%s>s3.out1.%s" % (c, c) for c in cols)
         for sql in ("insert into s3.out1 select * from s1.t1", "insert into s3.out1 select p.* from s1.t1 p",
-                    "create table s3.out1 as select * from s1.t1", "insert into s3.out1 select * from (select * from s1.t1) d"):
+                    "create table s3.out1 as select * from s1.t1", "insert into s3.out1 select * from (select * from s1.t1) d",
+                    "insert into s3.out1 (select * from s1.t1)"):
             out.append(({"sql": sql, "dialect": "ansi", "metadata": md, "config": {}}, exp, "star"))
     # unqualified column, two relations in scope: who lists it?
     for k1, k2 in itertools.product(("lists", "lacks", "unknown"), repeat=2):
@@ -48,7 +49,10 @@ def scenarios(r, upper):
     for tcols, sel in ((["p", "q"], "ca, cb"), (["p"], "ca"), (["p", "q", "r"], "ca, cb, cc")):
         md = {"s3.out1": [U(c) for c in tcols]}
         exp = ["s1.t1.%s>s3.out1.%s" % (c.strip(), t) for c, t in zip(sel.split(","), tcols)]
-        out.append(({"sql": "insert into s3.out1 select %s from s1.t1" % sel, "dialect": "ansi", "metadata": md, "config": {}}, sorted(exp), "target-positions"))
+        for form in ("insert into s3.out1 select %s from s1.t1", "insert into s3.out1 (select %s from s1.t1)",
+                     "insert into s3.out1 with c as (select ca, cb, cc from s1.t1) select %s from c",
+                     "insert into s3.out1 (with c as (select ca, cb, cc from s1.t1) select %s from c)"):
+            out.append(({"sql": form % sel, "dialect": "ansi", "metadata": md, "config": {}}, sorted(exp), "target-positions"))
     return out
 
 
